@@ -287,6 +287,37 @@ impl Agg {
 }
 
 static CUR_IDX: AtomicU64 = AtomicU64::new(u64::MAX);
+static CUR_PHASE: AtomicU64 = AtomicU64::new(0);
+
+/// Names the stage of the subject that is about to run, so that a hang or abort can say where it
+/// happened ("parse", "analyze", "lower", ...). At most 8 ASCII bytes are kept.
+pub fn set_phase(name: &str) {
+    let mut b = [0u8; 8];
+    for (i, c) in name.bytes().take(8).enumerate() {
+        b[i] = c;
+    }
+    CUR_PHASE.store(u64::from_le_bytes(b), Ordering::SeqCst);
+    // keep the on-disk copy current: an abort leaves no chance to write it later
+    PROGRESS_FD.with(|f| {
+        if let Some(f) = f.borrow().as_ref() {
+            let _ = f.write_all_at(&b, 16);
+        }
+    });
+}
+
+thread_local! {
+    static PROGRESS_FD: std::cell::RefCell<Option<std::fs::File>> = const { std::cell::RefCell::new(None) };
+}
+
+fn phase_name(raw: u64) -> String {
+    let b = raw.to_le_bytes();
+    let s: String = b.iter().take_while(|c| **c != 0).map(|c| *c as char).collect();
+    if s.is_empty() {
+        "run".to_string()
+    } else {
+        s
+    }
+}
 static CUR_START_MS: AtomicU64 = AtomicU64::new(0);
 
 fn now_ms() -> u64 {
@@ -325,11 +356,12 @@ impl<'a> WorkerState<'a> {
     fn execute(&mut self, idx: u64, case: Value) {
         CUR_START_MS.store(now_ms(), Ordering::SeqCst);
         CUR_IDX.store(idx, Ordering::SeqCst);
+        CUR_PHASE.store(0, Ordering::SeqCst);
         if self.isolated {
             if let Some(f) = &self.progress {
-                let mut buf = [0u8; 16];
+                let mut buf = [0u8; 24];
                 buf[..8].copy_from_slice(&idx.to_le_bytes());
-                buf[8..].copy_from_slice(&1u64.to_le_bytes());
+                buf[8..16].copy_from_slice(&1u64.to_le_bytes());
                 let _ = f.write_all_at(&buf, 0);
             }
         }
@@ -459,6 +491,7 @@ pub fn worker_main(prop: &dyn Prop, tier: Tier, seed: u64, a: WorkerArgs) -> i32
         .open(&a.progress)
         .ok();
     let keys = std::fs::File::create(&a.keys).expect("keys file");
+    PROGRESS_FD.with(|f| *f.borrow_mut() = progress.as_ref().and_then(|p| p.try_clone().ok()));
 
     // watchdog: a case that runs longer than the cap is a hang
     {
@@ -472,9 +505,10 @@ pub fn worker_main(prop: &dyn Prop, tier: Tier, seed: u64, a: WorkerArgs) -> i32
             let started = CUR_START_MS.load(Ordering::SeqCst);
             if now_ms().saturating_sub(started) > CASE_TIMEOUT_S * 1000 && CUR_IDX.load(Ordering::SeqCst) == idx {
                 if let Ok(f) = std::fs::OpenOptions::new().write(true).open(&progress_path) {
-                    let mut buf = [0u8; 16];
+                    let mut buf = [0u8; 24];
                     buf[..8].copy_from_slice(&idx.to_le_bytes());
-                    buf[8..].copy_from_slice(&2u64.to_le_bytes());
+                    buf[8..16].copy_from_slice(&2u64.to_le_bytes());
+                    buf[16..].copy_from_slice(&CUR_PHASE.load(Ordering::SeqCst).to_le_bytes());
                     let _ = f.write_all_at(&buf, 0);
                 }
                 unsafe { libc::_exit(86) };
@@ -555,11 +589,15 @@ pub fn load_findings() -> Vec<Finding> {
 }
 
 fn sig_matches(pattern: &str, sig: &str) -> bool {
-    if let Some(prefix) = pattern.strip_suffix('*') {
-        sig.starts_with(prefix)
-    } else {
-        pattern == sig
+    // `*` matches any run of characters
+    fn go(p: &[u8], s: &[u8]) -> bool {
+        match p.first() {
+            None => s.is_empty(),
+            Some(b'*') => (0..=s.len()).any(|i| go(&p[1..], &s[i..])),
+            Some(c) => s.first() == Some(c) && go(&p[1..], &s[1..]),
+        }
     }
+    go(pattern.as_bytes(), sig.as_bytes())
 }
 
 // ---------------------------------------------------------------------------------------------
@@ -645,16 +683,17 @@ fn run_shard(
         }
 
         // the worker died: attribute to the announced case
-        let mut buf = [0u8; 16];
+        let mut buf = [0u8; 24];
         let announced = std::fs::File::open(&progress)
             .ok()
             .and_then(|f| f.read_exact_at(&mut buf, 0).ok())
             .map(|_| {
                 (
                     u64::from_le_bytes(buf[..8].try_into().unwrap()),
-                    u64::from_le_bytes(buf[8..].try_into().unwrap()),
+                    u64::from_le_bytes(buf[8..16].try_into().unwrap()),
                 )
             });
+        let phase = phase_name(u64::from_le_bytes(buf[16..24].try_into().unwrap()));
         let how = match &status {
             Ok(s) => {
                 use std::os::unix::process::ExitStatusExt;
@@ -689,9 +728,9 @@ fn run_shard(
         let case = find_case(prop, tier, idx).unwrap_or(Value::Null);
         let ck = prop.case_kind(&case);
         let sig = if st == 2 {
-            format!("hang|{ck}")
+            format!("hang|{ck}|{phase}")
         } else {
-            format!("abort|{how}|{ck}")
+            format!("abort|{how}|{ck}|{phase}")
         };
         let e = merged.sigs.entry(sig).or_insert_with(|| SigAgg {
             count: 0,
@@ -755,6 +794,24 @@ pub fn replay_file(prop: &dyn Prop, path: &str) -> Result<Vec<Violation>, String
 }
 
 pub fn replay_main(prop: &dyn Prop, path: &str) -> i32 {
+    // a replayed case that hangs is reported as still violating
+    {
+        let id = prop.id().to_string();
+        let path = path.to_string();
+        std::thread::spawn(move || {
+            std::thread::sleep(Duration::from_secs(CASE_TIMEOUT_S));
+            println!("REPLAY-VIOLATION signature=hang :: no result after {CASE_TIMEOUT_S}s");
+            println!("VIOLATION property={id} replay={path}");
+            unsafe { libc::_exit(1) };
+        });
+    }
+    unsafe {
+        let lim = libc::rlimit {
+            rlim_cur: WORKER_AS_LIMIT,
+            rlim_max: WORKER_AS_LIMIT,
+        };
+        libc::setrlimit(libc::RLIMIT_AS, &lim);
+    }
     match replay_file(prop, path) {
         Err(e) => {
             eprintln!("machinery: {e}");
